@@ -107,6 +107,51 @@ def full_validator(repo_root):
     return verdict
 
 
+def internal_aliases(repo_root):
+    """doc -> aliases of every checkpoint the validator holds after validating doc (its own, the imported schemas',
+    and the ones validation generated: pseudo-checkpoints of threads, stitched connection checkpoints)."""
+    repo_root = os.path.abspath(repo_root)
+    if repo_root not in sys.path:
+        sys.path.insert(0, repo_root)
+    os.chdir(repo_root)
+    from validation.schema_validator import SchemaValidator
+
+    def walk(node, out, depth=0):
+        if depth > 12:
+            return
+        if isinstance(node, dict):
+            cps = node.get("checkpoints")
+            if isinstance(cps, list):
+                for c in cps:
+                    if isinstance(c, dict) and isinstance(c.get("alias"), str):
+                        out.add(c["alias"])
+            for k, v in node.items():
+                if k in ("imported_schemas",) or depth == 0 and k == "imported_schemas":
+                    walk(v, out, depth + 1)
+                elif isinstance(v, dict) and k not in ("checkpoints",):
+                    walk(v, out, depth + 1)
+
+    def aliases(doc):
+        v = SchemaValidator()
+        try:
+            v.validate(schema_dict=copy.deepcopy(doc))
+        except BaseException:
+            pass
+        out = set()
+        walk(getattr(v, "schema", None), out)
+        for name in ("_psuedo_checkpoints", "_generated_checkpoints"):
+            for x in getattr(v, name, None) or []:
+                if isinstance(x, str):
+                    out.add(x)
+                elif isinstance(x, dict) and isinstance(x.get("alias"), str):
+                    out.add(x["alias"])
+        for k, c in (getattr(v, "_checkpoints", None) or {}).items():
+            if isinstance(c, dict) and isinstance(c.get("alias"), str):
+                out.add(c["alias"])
+        return sorted(out)
+    return aliases
+
+
 def run_verdicts(repo_root, docs, mode="--worker"):
     """Verdict strings, computed by a fresh interpreter process per chunk (in parallel)."""
     from concurrent.futures import ThreadPoolExecutor
@@ -563,6 +608,61 @@ def directed_cases():
     return cases
 
 
+def importing_doc(file_name):
+    """A small valid document that imports one shipped schema."""
+    def action(i, **extra):
+        a = {"id": i, "name": "native_action_%d" % i, "object_promise": "object_promise:%d" % i, "description": "d",
+             "party": "party:{NativeParty}", "operation": {"include": ["name"]}}
+        a.update(extra)
+        return a
+    return {"standard": "alias_collision", "imports": [{"file_name": file_name}], "terms": [],
+            "parties": [{"id": 0, "name": "NativeParty"}],
+            "object_types": [{"id": 0, "name": "NativeType", "attributes": [{"name": "completed", "type": "BOOLEAN"},
+                                                                            {"name": "name", "type": "STRING"}]}],
+            "object_promises": [{"id": 0, "name": "np_0", "object_type": "object_type:{NativeType}"},
+                                {"id": 1, "name": "np_1", "object_type": "object_type:{NativeType}"}],
+            "pipelines": [], "actions": [action(0), action(1, depends_on="checkpoint:{native-cp}")],
+            "checkpoints": [{"id": 0, "alias": "native-cp", "description": "d",
+                             "dependencies": [{"compare": {"left": {"ref": "action:0.object_promise.completed"},
+                                                           "right": {"value": True}, "operator": "EQUALS"}}]}],
+            "thread_groups": []}
+
+
+def alias_collision_cases(repo_root):
+    """A hand-written, structurally broken checkpoint that carries the alias of a checkpoint the validator holds
+    internally (generated pseudo-checkpoints, stitched checkpoints, checkpoints of imported schemas).  Being known
+    under an internal alias must not exempt a document's own checkpoint from structural validation."""
+    bases = []
+    for name, doc in base_documents(repo_root):
+        if isinstance(doc.get("imports"), list) and doc["imports"] or doc.get("thread_groups"):
+            bases.append((name, doc))
+    files = sorted(glob.glob(os.path.join(repo_root, "schemas", "test", "*.json")))
+    for f in files:
+        rel = os.path.relpath(f, os.path.join(repo_root, "schemas"))[:-5]
+        bases.append(("imports:" + rel, importing_doc(rel)))
+    acc = run_verdicts(repo_root, [b[1] for b in bases], mode="--full")
+    bases = [b for b, v in zip(bases, acc) if v == "accept"]
+    aliases = run_verdicts(repo_root, [b[1] for b in bases], mode="--aliases")
+    dep = {"compare": {"left": {"ref": "action:0.object_promise.completed"}, "right": {"value": True}, "operator": "EQUALS"}}
+    cases = []
+    for (name, doc), al in zip(bases, aliases):
+        own = set(c.get("alias") for c in doc.get("checkpoints", []) if isinstance(c, dict))
+        for a in al:
+            if a in own or not is_ascii(a):
+                continue
+            broken = [("only_alias", {"alias": a}),
+                      ("string_id", {"id": "seven", "alias": a, "description": "d", "dependencies": [dep]}),
+                      ("bad_gate", {"id": 77, "alias": a, "description": "d", "gate_type": "ZZZ", "dependencies": [dep, dep]}),
+                      ("dependencies_scalar", {"id": 77, "alias": a, "description": "d", "dependencies": 5}),
+                      ("missing_description_gate", {"id": 77, "alias": a, "dependencies": [dep, dep]})]
+            for what, cp in broken:
+                d = copy.deepcopy(doc)
+                d.setdefault("checkpoints", []).append(cp)
+                cases.append({"doc": d, "kind": "alias_collision:" + what, "base": name,
+                              "path": "checkpoints[+] alias=" + a, "inert": False})
+    return cases
+
+
 DAMAGE_KINDS = (["delete_key"] * 6 + ["replace:%d" % i for i in range(len(REPLACEMENTS))] * 2 + ["replace_root"] +
                 ["add_reserved"] * 3 + ["add_partner"] * 4 + ["truncate"] * 4 + ["break_string"] * 6 + ["break_ref"] * 4 +
                 ["rename_key"] * 2 + ["gate"] * 4 + ["add_map_entry"])
@@ -770,6 +870,12 @@ if __name__ == "__main__":
     if len(sys.argv) >= 3 and sys.argv[1] == "--full":
         sys.setrecursionlimit(3000)
         f = full_validator(sys.argv[2])
+        docs = json.loads(sys.stdin.read())
+        sys.stdout.write(json.dumps([f(d) for d in docs]))
+        sys.exit(0)
+    if len(sys.argv) >= 3 and sys.argv[1] == "--aliases":
+        sys.setrecursionlimit(3000)
+        f = internal_aliases(sys.argv[2])
         docs = json.loads(sys.stdin.read())
         sys.stdout.write(json.dumps([f(d) for d in docs]))
         sys.exit(0)
